@@ -108,8 +108,14 @@ impl<I: Object + fmt::Debug> fmt::Debug for Stream<I> {
 impl<I: Object> Object for Stream<I> {
     /// Convert primitive to Self
     fn from_primitive(p: Primitive, resolve: &impl Resolve) -> Result<Self> {
-        let s = PdfStream::from_primitive(p, resolve)?;
-        Stream::from_stream(s, resolve)
+        match p {
+            // the stream dictionary may name further streams (decode parameters): not this one again
+            Primitive::Reference(r) => {
+                let s = PdfStream::from_primitive(p, resolve)?;
+                resolve.with_loading(r, || Stream::from_stream(s, resolve))
+            }
+            p => Stream::from_stream(PdfStream::from_primitive(p, resolve)?, resolve)
+        }
     }
 }
 impl<I: ObjectWrite> Stream<I> {
